@@ -37,8 +37,10 @@ def generate(rng, tier):
             files.append(["single/only.slt", "statement ok\nselect TAG900\n"])
         for n in (range(1, 9) if tier != "quick" else [1, 2, 3, rng.randint(4, 8)]):
             for i in range(n):
-                style = rng.choice(["flag", "env", "buildkite"])
-                cases.append({"files": files, "globs": globs, "count": n, "id": i, "style": style, "set": s, "meta": {}})
+                style = rng.choice(["flag", "env", "buildkite", "env-count+flag-id", "flag-count+env-id"])
+                # an explicit configuration (flags, SLT_PARTITION_*, or a mix) wins over the CI's variables, which may be present with other values
+                noise = style != "buildkite" and rng.random() < 0.5
+                cases.append({"files": files, "globs": globs, "count": n, "id": i, "style": style, "bk_noise": noise, "set": s, "meta": {}})
         for bad in ([0, 0], [3, 3], [2, 5], [4, None]):
             cases.append({"files": files, "globs": globs, "count": bad[0], "id": bad[1], "style": "flag", "set": s, "meta": {"invalid": True}})
         cases.append({"files": files, "globs": globs, "count": 2, "id": 1, "style": "flag", "set": s, "meta": {"repeat": True}})
@@ -52,8 +54,16 @@ def run_one(sb, c):
         if c["id"] is not None: args += ["--partition-id", str(c["id"])]
     elif c["style"] == "env":
         env = {"SLT_PARTITION_COUNT": str(c["count"]), "SLT_PARTITION_ID": str(c["id"])}
+    elif c["style"] == "env-count+flag-id":
+        env = {"SLT_PARTITION_COUNT": str(c["count"])}
+        args += ["--partition-id", str(c["id"])]
+    elif c["style"] == "flag-count+env-id":
+        env = {"SLT_PARTITION_ID": str(c["id"])}
+        args += ["--partition-count", str(c["count"])]
     else:
         env = {"BUILDKITE_PARALLEL_JOB_COUNT": str(c["count"]), "BUILDKITE_PARALLEL_JOB": str(c["id"])}
+    if c.get("bk_noise"):
+        env.update({"BUILDKITE_PARALLEL_JOB_COUNT": "8", "BUILDKITE_PARALLEL_JOB": "7"})
     r = sb.run(args + c["globs"], env=env)
     tags = sorted(e["sql"].split()[-1] for e in r["events"] if e["ev"] == "SQL" and "TAG" in e.get("sql", ""))
     return r, tags
